@@ -249,6 +249,47 @@ pub fn run(ctx: &Ctx) -> Result<(), String> {
             let _ = std::fs::remove_dir_all(&dir);
         }
     }
+    // per-client statistics with the shortest status intervals the configuration accepts (sampled):
+    // the reporter thread must still notice the shutdown flag
+    for (interval, sig) in [("0", libc::SIGINT), ("0", libc::SIGTERM), ("1", libc::SIGINT)] {
+        let dir = crate::proc::scratch_dir();
+        let dirs = dir.display().to_string();
+        let started = crate::proc::start_serving(
+            &|port| {
+                let mut w = Written::base(port);
+                w.set("num_workers", "2");
+                w.set("client_stats", "on");
+                w.set("persistence_directory", &dirs);
+                w.set("status_interval", interval);
+                w
+            },
+            Source::File,
+            2,
+            Duration::from_secs(20),
+        );
+        let (mut sp, _port) = match started {
+            Ok(x) => x,
+            Err(_) if interval == "0" => {
+                // a server that refuses status_interval 0 is not this property's concern
+                let _ = std::fs::remove_dir_all(&dir);
+                continue;
+            }
+            Err(e) => return Err(e),
+        };
+        std::thread::sleep(Duration::from_millis(300));
+        let t0 = Instant::now();
+        sp.signal(sig);
+        let ex = sp.wait_exit(Duration::from_secs(10));
+        let secs = t0.elapsed().as_secs_f64();
+        let se = sp.stderr();
+        sampled.push(json!({"num_workers":2,"client_stats":true,"status_interval":interval,"signal":if sig == libc::SIGINT {"INT"} else {"TERM"},"exit":format!("{:?}", ex.map(|e| (e.0, e.1))),"seconds":(secs * 1000.0).round() / 1000.0}));
+        if !(matches!(ex, Some((Some(0), _, _))) && secs <= 5.0 && !se.contains("panicked")) {
+            ctx.violation("wall-clock-shutdown", if ex.is_none() { "no-exit-10s" } else { "unclean" }, &format!("client_stats on/status_interval {}", interval),
+                json!({"kind":"wallclock-interval","status_interval":interval,"signal":sig,"exit":format!("{:?}", ex),"seconds":secs}));
+        }
+        sp.kill();
+        let _ = std::fs::remove_dir_all(&dir);
+    }
     // two signals a short while apart (sampled)
     for (stats, gap_ms, s1, s2) in [(false, 15u64, libc::SIGINT, libc::SIGTERM), (true, 250, libc::SIGTERM, libc::SIGINT), (false, 40, libc::SIGTERM, libc::SIGTERM)] {
         let dir = crate::proc::scratch_dir();
